@@ -380,10 +380,17 @@ func lengthAccounting(p *Prog, r *Report, rule string) {
 			}
 		})
 		// the index phi of the loop: every back edge carries index + GetLength() of the loop's element (also after an encode error)
+		var encIdx ssa.Value
+		eachInstr(f, func(in ssa.Instruction) {
+			if c, ok := in.(*ssa.Call); ok && c.Call.StaticCallee() != nil && c.Call.StaticCallee().Name() == "encodeInfoElementValueToBuff" && len(c.Call.Args) == 3 {
+				encIdx = c.Call.Args[2]
+			}
+		})
 		okEvery := false
 		eachInstr(f, func(in ssa.Instruction) {
 			ph, ok := in.(*ssa.Phi)
-			if !ok || ph.Comment != "index" {
+			// the write offset: the phi that is handed to the encoder as its index argument (whatever the variable is called)
+			if !ok || encIdx == nil || ssa.Value(ph) != encIdx {
 				return
 			}
 			okEvery = true
@@ -470,9 +477,17 @@ func lengthAccounting(p *Prog, r *Report, rule string) {
 			if !ok || b.Op != token.ADD {
 				return
 			}
+			// the accumulator: a loop-carried integer (phi that is fed by this very addition) or the record's len field
 			isAcc := false
-			if _, isPhi := b.X.(*ssa.Phi); isPhi && strings.Contains(b.X.(*ssa.Phi).Comment, "length") {
-				isAcc = true
+			if ph, isPhi := b.X.(*ssa.Phi); isPhi {
+				for _, e := range ph.Edges {
+					if e == ssa.Value(b) {
+						isAcc = true
+					}
+				}
+				if _, isIdx := rangeLoopCounter(ph); isIdx {
+					isAcc = false // the loop counter itself (i + 1)
+				}
 			}
 			if _, fn, _, ok := loadedField(b.X); ok && fn == "len" {
 				isAcc = true
